@@ -83,6 +83,10 @@ def run_shard(shard, ctx):
             ext = [["SPARSE", 24, "RW", "a"], ["FLAT", 24, "RW", "b"]]
             ext.insert(pos, ["FLAT", sectors, "RW", "off", None, start])
             run_case({"kind": "vmdk", "extents": ext}, ctx)
+        for eol in ("crlf", "blank", "tab-crlf", "blanks-crlf"):
+            for ks in (("FLAT", "SPARSE", "FLAT"), ("SPARSE",), ("VMFS", "VMFSSPARSE"), ("SESPARSE", "FLAT")):
+                run_case({"kind": "vmdk", "extents": [[k, SIZES[j % 3], "RW", NAMES[j % 6] + str(j)] for j, k in enumerate(ks)],
+                          "eol": eol}, ctx)
         # several extent lines carved out of one backing file (adjacent, out of order, separated by a sparse extent)
         pieces = [(0, 40), (40, 24), (64, 16)]
         for perm in itertools.permutations(range(3)):
@@ -122,6 +126,10 @@ def run_shard(shard, ctx):
         for types in itertools.product(("Plain", "Compressed"), repeat=2):
             for which in (0, 1):
                 run_case({"kind": "hdd", "types": list(types), "order": [0, 1], "sizes": [24, 17], "absolute": which}, ctx)
+        for r in (2, 3):
+            for types in itertools.product(("Plain", "Compressed"), repeat=r):
+                run_case({"kind": "hdd", "types": list(types), "order": list(range(r)), "sizes": [SIZES[(j + r) % 3] + 2 * j for j in range(r)],
+                          "subdirs": True}, ctx)
         # a disk split over 300 storages (more image files than common handle-pool limits), used back to front
         for typ in ("Plain", "Compressed"):
             run_case({"kind": "hdd", "types": [typ] * 300, "order": list(range(300)), "sizes": [8 + j % 3 for j in range(300)],
@@ -260,8 +268,12 @@ def _case_vmdk(case, ctx, d, buf):
     kinds = {e[0] for e in case["extents"]}
     ctype = ("vmfs" if kinds <= {"VMFS"} else "vmfsSparse" if kinds <= {"VMFSSPARSE"} else "seSparse" if kinds <= {"SESPARSE"}
              else "twoGbMaxExtentFlat" if kinds <= {"FLAT"} else "twoGbMaxExtentSparse" if kinds <= {"SPARSE"} else "custom")
-    with open(os.path.join(d, "disk.vmdk"), "w", encoding="utf-8") as f:
-        f.write(B.descriptor_text(ctype, lines))
+    text = B.descriptor_text(ctype, lines)
+    if case.get("eol"):
+        # descriptors written on other hosts / by other tools: CR LF line ends, blanks or a tab before the line end
+        text = text.replace("\n", {"crlf": "\r\n", "blank": " \n", "tab-crlf": "\t\r\n", "blanks-crlf": "  \r\n"}[case["eol"]])
+    with open(os.path.join(d, "disk.vmdk"), "w", encoding="utf-8", newline="") as f:
+        f.write(text)
     disk = ConcatDisk(parts)
     # the process's working directory holds look-alikes of every extent file (another copy of the VM): extent names are
     # relative to the descriptor, never to the working directory
@@ -489,6 +501,10 @@ def _case_hdd(case, ctx, d, buf):
     pos = 0
     for si, (typ, sectors) in enumerate(zip(case["types"], case["sizes"])):
         fn = f"m.hdd.{si}.{g}.hds"
+        if case.get("subdirs"):
+            # every storage keeps its image under the same file name in a directory of its own
+            fn = f"s{si}/data.hds"
+            os.makedirs(os.path.join(hd, f"s{si}"), exist_ok=True)
         if typ == "Plain":
             data = pattern.sectors(si + 1, 0, sectors)
             with open(os.path.join(hd, fn), "wb") as f:
